@@ -1,4 +1,5 @@
 import Oidc.Proofs.CodeHandler
+import Oidc.Proofs.CodeSession
 import Oidc.Proofs.CodeStrings
 import Oidc.Shapes
 import Oidc.Proofs.Strings
@@ -117,5 +118,13 @@ theorem code_extractGroupsAndRoles (t : Go.Inst) (tok : Str) (claims : Go.Obj) (
       | none => (Code.TraefikOidc_extractGroupsAndRoles t tok).2.2.isSome = true
       | some (g, r) => Code.TraefikOidc_extractGroupsAndRoles t tok = (g, r, none)) :=
   extractGroupsAndRoles_refines t tok claims hc
+
+open Oidc.Generated Oidc.CodeRefine in
+/-- session.go `SetEmail` / `GetEmail` as translated: the address the allow-list is asked about on every request
+    (`processAuthorizedRequest` reads `GetEmail`) is the very string the callback or the refresh stored — not a trimmed, case-folded
+    or otherwise normalised form of it, so the gate at login and the gate on each request judge the same spelling -/
+theorem code_email_stored_as_is (sd : Go.SessData) (email : Go.Str) :
+    Code.SessionData_GetEmail (Code.SessionData_SetEmail sd email) = email :=
+  mainGet_mainSet _ sd email
 
 end Oidc.Props.C06
